@@ -140,6 +140,65 @@ example :
       some ⟨[(hAllowOrigin, "http://MiXed.example".toList)], true⟩ := by
   decide
 
+/-! ### non-vacuity (audit): the theorems instantiated (all hypotheses at once) on a filter with two
+    allowed domains, credentials and max-age, in front of a two-service table; `Spec.c08Holds` falsified -/
+namespace C08Example
+
+def env : ReEnv := ⟨fun _ _ => true, fun _ _ => true⟩
+def tbl : Config := { router := .curly, services :=
+  [{ id := 0, root := "/a".toList, routes := [{ id := 0, method := "GET".toList, relPath := "".toList, consumes := [], produces := [], conds := [], noct := [] }] },
+   { id := 1, root := "/b".toList, routes := [{ id := 1, method := "PUT".toList, relPath := "/{id}".toList, consumes := [], produces := [], conds := [], noct := [] }] }] }
+def cc : CorsCfg :=
+  { allowedDomains := ["http://other.example".toList, "http://good.example".toList], cookies := true, maxAge := 3600 }
+def ccNoCookies : CorsCfg := { allowedDomains := ["http://other.example".toList, "http://good.example".toList] }
+def rq (origin : String) : CorsReq := { method := "GET".toList, path := "/a".toList, origin := origin.toList }
+/-- equals the second entry ignoring case -/
+def good : CorsReq := rq "HTTP://Good.Example"
+/-- has the second entry as a proper prefix -/
+def evil : CorsReq := rq "http://good.example.evil.test"
+def outGood : Out :=
+  ⟨[(hAllowOrigin, "HTTP://Good.Example".toList), (hAllowCredentials, "true".toList), (hMaxAge, "3600".toList)], true⟩
+
+example : corsOut toLowerAscii env cc tbl good = some outGood ∧ outGood.added ≠ [] := by decide
+/-- `C08_grant`, `C08_echo`, `C08_spec`: hypotheses `h` and `hne` hold of the granted request -/
+example := C08_grant toLowerAscii env cc tbl good outGood (by decide) (by decide)
+example := C08_echo toLowerAscii env cc tbl good outGood (by decide) (by decide)
+example : Spec.c08Holds toLowerAscii cc good (obsOf outGood) = true :=
+  C08_spec toLowerAscii env cc tbl good outGood (by decide)
+/-- `C08_no_partial_match`: no predicate, a non-empty list, no entry is the wildcard or the whole origin -/
+example : corsOut toLowerAscii env cc tbl evil = some ⟨[], true⟩ :=
+  C08_no_partial_match toLowerAscii env cc tbl evil rfl (by decide) (by decide)
+/-- `C08_transparent`, both alternatives of its hypothesis -/
+example := C08_transparent toLowerAscii env cc tbl evil (.inr (by decide))
+example := C08_transparent toLowerAscii env cc tbl (rq "") (.inl rfl)
+
+def oGood : Spec.CorsObs := obsOf outGood
+def oNone : Spec.CorsObs := obsOf ⟨[], true⟩
+
+/-- `Spec.c08Holds` is not trivially true.  For the allowed origin it is falsified by: `*` instead of
+    the origin; the origin in another spelling (not verbatim); Allow-Origin twice; credentials without
+    Allow-Origin; credentials that are not configured.  For the disallowed origin (and for no Origin)
+    it accepts the twin's response only: falsified by an Allow-Origin echo, by any other CORS header,
+    by another status, another log, another body, a header missing. -/
+example :
+    Spec.c08Holds toLowerAscii cc good oGood = true ∧
+    Spec.c08Holds toLowerAscii cc good { oGood with extra := [(hAllowOrigin, "*".toList)] } = false ∧
+    Spec.c08Holds toLowerAscii cc good { oGood with extra := [(hAllowOrigin, "http://good.example".toList)] } = false ∧
+    Spec.c08Holds toLowerAscii cc good { oGood with extra := oGood.extra ++ [(hAllowOrigin, "HTTP://Good.Example".toList)] } = false ∧
+    Spec.c08Holds toLowerAscii cc good { oGood with extra := [(hAllowCredentials, "true".toList)] } = false ∧
+    Spec.c08Holds toLowerAscii ccNoCookies good oGood = false ∧
+    Spec.c08Holds toLowerAscii cc evil oNone = true ∧
+    Spec.c08Holds toLowerAscii cc evil { oNone with extra := [(hAllowOrigin, evil.origin)] } = false ∧
+    Spec.c08Holds toLowerAscii cc evil { oNone with extra := [(hMaxAge, "3600".toList)] } = false ∧
+    Spec.c08Holds toLowerAscii cc evil { oNone with status := 403 } = false ∧
+    Spec.c08Holds toLowerAscii cc evil { oNone with logSame := false } = false ∧
+    Spec.c08Holds toLowerAscii cc evil { oNone with bodySame := false } = false ∧
+    Spec.c08Holds toLowerAscii cc (rq "") { oNone with extra := [(hAllowOrigin, [])] } = false ∧
+    Spec.c08Holds toLowerAscii cc (rq "") { oNone with missing := 1 } = false := by
+  decide
+
+end C08Example
+
 /-! The frame condition (Lemmas/StateShape.lean): the code has exactly the state this property's model
     accounts for — no further package-level variable, struct type or field; constants as modelled. -/
 -- also: Restful.StateShape.globals_shape
